@@ -51,6 +51,8 @@ abbrev FS := List (Str × File)
 inductive Err where
   | noFile | noPart | multipartShape | notFound | ambiguous | conflict | missingParam | badType
   | missingInput | dupInput | tooDeep | unsupported
+  /-- `MultiChain`: two member configs with one name -/
+  | dupChain
 deriving DecidableEq, Repr
 
 /-! ## strings -/
